@@ -339,84 +339,185 @@ def _root_field(body, place, names, defs=None, depth=0):
 
 
 def r7_access_lists(ctx):
-    """Semantics of the allow/deny decision itself, as path conditions on
-    `true` answers of AccessControlConfig::is_allowed_access."""
+    """Semantics of the allow/deny decision itself. Every acyclic path of
+    AccessControlConfig::is_allowed_access is walked with a small abstract
+    state (per list: None/Some/unexamined and hit/miss/untested; booleans
+    that hold `is_some`, membership results or constants), infeasible branches
+    are pruned, and each path that may answer `true` must have established
+    allow ∈ {None, hit} and deny ∈ {None, miss}."""
     ws = ctx.ws
     r = ctx.rule("C11-R7", "is_allowed_access answers true only for an account that is on a configured allow list and was tested against a configured deny list",
-                 floor=2, kind="K2 edge-constrained path search")
+                 floor=2, kind="K2 path-sensitive abstract interpretation (finite domain, all acyclic paths)")
     f = ws.fn("sos_server::config::AccessControlConfig::is_allowed_access")
     if not f:
         r.anchor_missing("AccessControlConfig::is_allowed_access")
         return
     body = f.main
-    live = cfg.live_blocks(body)
     names = ("allow", "deny")
-    some_edges = {n: set() for n in names}
-    for es in cfg.enum_switches(body):
-        if es.enum != "core::option::Option":
-            continue
-        n = _root_field(body, es.place, names)
-        if not n:
-            continue
-        if "Some" in es.targets:
-            some_edges[n].add((es.block, es.targets["Some"]))
-        elif es.otherwise_live:
-            some_edges[n].add((es.block, es.otherwise))
-    hit = {n: set() for n in names}    # edges: the account IS on the list
-    miss = {n: set() for n in names}   # edges: the account is NOT on the list
-    for i, t in idioms.real_calls(body, live):
-        if cname(t) not in ("any", "contains"):
-            continue
-        p_ = cfg.op_place(t["args"][0])
-        n = _root_field(body, p_, names) if p_ else None
-        bs = cfg.bool_switch(body, t.get("t")) if t.get("t") is not None else None
-        if n and bs:
-            hit[n].add((bs.block, bs.true_t))
-            miss[n].add((bs.block, bs.false_t))
-    for n in names:
-        if not some_edges[n] or not hit[n]:
-            r.anchor_missing("`%s` list: Some-edge %d, membership tests %d" % (n, len(some_edges[n]), len(hit[n])))
-    trues = []
-    for bi, st, is_term in cfg.defs_of(body).get(0, []):
-        if bi in live and not is_term and st.get("k") == "use":
-            c = cfg.op_const(st["ops"][0])
-            if c is not None and c.get("b") is True:
-                trues.append(bi)
+    defs = cfg.defs_of(body)
+    sc = cfg.succs(body)
 
-    def via(edges, avoid, goal):
-        """A path entry -> one of `edges` -> goal that uses none of `avoid`."""
-        r1 = cfg.reach(body, [0], cut_edges=avoid)
-        for (u, v) in sorted(edges):
-            if (u in r1 or u == 0) and (u, v) not in avoid:
-                if v == goal or goal in cfg.reach(body, [v], cut_edges=avoid):
-                    return (u, v)
+    def neg(a):
+        return a[1] if a and a[0] == "not" else ("not", a)
+
+    def absop(o, bools):
+        c = cfg.op_const(o)
+        if c is not None and isinstance(c.get("b"), bool):
+            return ("const", c["b"])
+        p_ = cfg.op_place(o)
+        if p_ is not None and "." not in p_:
+            return bools.get(cfg.place_local(p_))
         return None
+
+    def refine(a, v, st):
+        """Apply `a == v` to the state; False when infeasible."""
+        if a is None:
+            return True
+        if a[0] == "const":
+            return a[1] == v
+        if a[0] == "not":
+            return refine(a[1], not v, st)
+        if a[0] == "is_some":
+            want = "some" if v else "none"
+            if st["lst"][a[1]] not in ("?", want):
+                return False
+            st["lst"][a[1]] = want
+            return True
+        if a[0] == "member":
+            st["tst"][a[1]] = "hit" if v else "miss"
+            return True
+        return True
+    results = {}     # return-def block -> list of (kind or None, lists-some)
+    counter = [0]
+
+    def walk(bi, st, seen):
+        counter[0] += 1
+        if counter[0] > 20000 or bi in seen:
+            raise OverflowError()
+        seen = seen | {bi}
+        blk = body.blocks[bi]
+        st = {"lst": dict(st["lst"]), "tst": dict(st["tst"]), "bools": dict(st["bools"]), "ret": st["ret"]}
+        for s_ in blk["s"]:
+            d = s_.get("d")
+            if d is None or "." in d or s_["k"] == "dead":
+                continue
+            l = cfg.place_local(d)
+            a = None
+            if s_["k"] == "use":
+                a = absop(s_["ops"][0], st["bools"])
+            elif s_["k"] == "un" and s_.get("op") == "Not":
+                x = absop(s_["ops"][0], st["bools"])
+                a = neg(x) if x else None
+            st["bools"][l] = a
+            if l == 0:
+                st["ret"] = (bi, a)
+        t = blk.get("term") or {}
+        k = t.get("k")
+        if k == "return":
+            d_, a = st["ret"] if st["ret"] else (bi, None)
+            lst, tst = dict(st["lst"]), dict(st["tst"])
+            kind = None
+            if a and a[0] == "const" and a[1] is False:
+                return
+            if a and a[0] == "member":
+                if a[1] == "deny":
+                    kind = "on-deny-list"
+                tst[a[1]] = "hit"
+            elif a and a[0] == "not" and a[1] and a[1][0] == "member":
+                tst[a[1][1]] = "miss"
+            if kind is None:
+                if not (lst["allow"] == "none" or tst["allow"] == "hit"):
+                    kind = "absent-from-allow" if lst["allow"] == "some" else "allow-not-consulted"
+                elif tst["deny"] == "hit":
+                    kind = "on-deny-list"
+                elif not (lst["deny"] == "none" or tst["deny"] == "miss"):
+                    kind = "deny-not-consulted"
+            results.setdefault(d_, []).append((kind, "+".join(n for n in names if lst[n] == "some") or "no-lists"))
+            return
+        if k == "call":
+            a = None
+            nm = cname(t)
+            p_ = cfg.op_place(t["args"][0]) if t.get("args") else None
+            n = _root_field(body, p_, names, defs) if p_ else None
+            if n and nm in ("is_some", "is_none") and "option::Option" in (t.get("callee") or ""):
+                a = ("is_some", n) if nm == "is_some" else ("not", ("is_some", n))
+            elif n and nm in ("any", "contains"):
+                a = ("member", n)
+            dl = t.get("dest")
+            if dl and "." not in dl:
+                st["bools"][cfg.place_local(dl)] = a
+                if cfg.place_local(dl) == 0:
+                    st["ret"] = (bi, a)
+            if t.get("t") is not None:
+                walk(t["t"], st, seen)
+            return
+        if k == "switch":
+            bs = cfg.bool_switch(body, bi)
+            es = cfg.enum_switch(body, bi)
+            if es and es.enum == "core::option::Option":
+                n = _root_field(body, es.place, names, defs)
+                listed = dict(es.targets)
+                for v, tgt in listed.items():
+                    st2 = {"lst": dict(st["lst"]), "tst": st["tst"], "bools": st["bools"], "ret": st["ret"]}
+                    if n:
+                        want = "some" if v == "Some" else "none"
+                        if st2["lst"][n] not in ("?", want):
+                            continue
+                        st2["lst"][n] = want
+                    walk(tgt, st2, seen)
+                if es.otherwise_live and len(listed) < 2:
+                    other = "none" if "Some" in listed else "some"
+                    st2 = {"lst": dict(st["lst"]), "tst": st["tst"], "bools": st["bools"], "ret": st["ret"]}
+                    if n:
+                        if st2["lst"][n] in ("?", other):
+                            st2["lst"][n] = other
+                            walk(es.otherwise, st2, seen)
+                    else:
+                        walk(es.otherwise, st2, seen)
+                return
+            if bs:
+                a = st["bools"].get(bs.local)
+                for v, tgt in ((True, bs.true_t), (False, bs.false_t)):
+                    st2 = {"lst": dict(st["lst"]), "tst": dict(st["tst"]), "bools": st["bools"], "ret": st["ret"]}
+                    if refine(a, v, st2):
+                        walk(tgt, st2, seen)
+                return
+        for nx in sc[bi]:
+            walk(nx, st, seen)
+    try:
+        walk(0, {"lst": {n: "?" for n in names}, "tst": {n: "no" for n in names}, "bools": {}, "ret": None}, frozenset())
+    except (OverflowError, RecursionError):
+        r.anchor_missing("is_allowed_access is no longer a small loop-free function (path enumeration gave up)")
+        return
+    MSG = {
+        "absent-from-allow": "with an allow list configured, `true` is returned on a path that never found the account on it: accounts absent from the allow list are served",
+        "allow-not-consulted": "`true` is returned on a path that never looked at the allow list",
+        "on-deny-list": "`true` is returned after the account was found on the deny list",
+        "deny-not-consulted": "`true` is returned on a path that never tested the account against a configured deny list: an account that is on both lists is served although denied entries take precedence",
+    }
+    nret = 0
     seen_keys = {}
-    for d in sorted(trues):
-        loc = cfg.loc(body, d)
-        k = "%s|true@%s" % (f.root, "+".join(sorted(n for n in names if via(some_edges[n], set(), d))) or "no-lists")
-        seen_keys[k] = seen_keys.get(k, 0) + 1
-        if seen_keys[k] > 1:
-            k += "#%d" % seen_keys[k]
-        e = via(some_edges["allow"], hit["allow"], d)
-        if e:
-            r.violation(k + "|absent-from-allow", loc,
-                        "with an allow list configured, `true` is returned on a path that never found the account on it: accounts absent from the allow list are served",
-                        work=len(live))
-            continue
-        e = via(hit["deny"], set(), d)
-        if e:
-            r.violation(k + "|on-deny-list", loc, "`true` is returned after the account was found on the deny list", work=len(live))
-            continue
-        e = via(some_edges["deny"], miss["deny"], d)
-        if e:
-            r.violation(k + "|deny-not-consulted", loc,
-                        "with a deny list configured, `true` is returned on a path that never tested the account against it: an account that is on both lists is served although denied entries take precedence",
-                        work=len(live))
-            continue
-        r.ok(k, loc, "true only after: allow configured => found on it; deny configured => tested and not on it", work=len(live))
-    if not trues:
-        r.anchor_missing("`true` answers of is_allowed_access")
+    for d_ in sorted(results):
+        outs = results[d_]
+        bad = sorted({(kind, lists) for kind, lists in outs if kind})
+        lists = sorted({l_ for _k, l_ in outs})
+        nret += 1
+        if bad:
+            for kind, l_ in bad:
+                k = "%s|true@%s|%s" % (f.root, l_, kind)
+                seen_keys[k] = seen_keys.get(k, 0) + 1
+                if seen_keys[k] > 1:
+                    k += "#%d" % seen_keys[k]
+                r.violation(k, cfg.loc(body, d_), MSG[kind], work=counter[0])
+        else:
+            k = "%s|true@%s" % (f.root, ",".join(lists))
+            seen_keys[k] = seen_keys.get(k, 0) + 1
+            if seen_keys[k] > 1:
+                k += "#%d" % seen_keys[k]
+            r.ok(k, cfg.loc(body, d_), "%d feasible path(s) end here with a possibly-true answer; each has allow ∈ {None, found} and deny ∈ {None, tested and not found}" % len(outs), work=counter[0])
+    if nret == 0:
+        r.anchor_missing("possibly-true answers of is_allowed_access")
+    r.note("%d path steps walked" % counter[0])
 
 
 def r5_verify_device(ctx):
